@@ -671,3 +671,191 @@ def parse_visitor(src, sc):
             _fail(f"gen/visitor.rs: visit method for unknown type {t}")
     # every variant of a visited sum must have its own visit method (checked above through dispatch)
     return entries, dispatch, visit_of
+
+
+# ------------------------------------------------------------------ translate + emit
+
+class Result:
+    pass
+
+
+def translate(repo=None):
+    repo = repo or core.REPO
+    base = os.path.join(repo, "ast", "src")
+
+    def rd(*p):
+        with open(os.path.join(base, *p), encoding="utf-8") as f:
+            return f.read()
+    sums, simple, structs, order = parse_generic(rd("gen", "generic.rs"))
+    sc = build_schema(sums, simple, structs, order)
+    res = Result()
+    res.schema = sc
+    res.fold_entries, res.fold_dispatch = parse_fold(rd("gen", "fold.rs"), rd("fold.rs"), sc)
+    res.visit_entries, res.visit_dispatch, res.visit_of = parse_visitor(rd("gen", "visitor.rs"), sc)
+    res.carry = carrying(sc)
+    res.need = needed(sc, res.carry)
+    # optimiser anchors
+    for k, want in (("ExprTuple", ["elts", "ctx"]), ("ExprConstant", ["value", "kind"])):
+        if k not in sc.kind_id or [f for f, _ in sc.structs[k]["fields"]] != want:
+            _fail(f"{k}: fields are not {want} (ConstantOptimizer model)")
+    # visitor analysis (Python mirror of visitWFb; Lean re-proves it by `decide`).
+    # Walk from the stmt/expr/pattern/excepthandler kinds; a kind whose visit method exists but has an
+    # empty body although it has carrying fields goes to `skip` and is not expanded.
+    def carrying_fields(k):
+        return [i for i, (fn, ft) in enumerate(sc.structs[k]["fields"])
+                if child_target(ft) and any(u in res.carry for u in kinds_under(sc, child_target(ft)))]
+    skip, problems = [], []
+    seen = set()
+    todo = [k for k in sc.kinds if sc.parent.get(k) in INTERESTING_SUMS]
+    while todo:
+        k = todo.pop(0)
+        if k in seen:
+            continue
+        seen.add(k)
+        fields = sc.structs[k]["fields"]
+        car = carrying_fields(k)
+        par = sc.parent.get(k)
+        if k not in res.visit_entries or (par and par not in res.visit_dispatch):
+            problems.append(f"{k}: no visit method")
+            continue
+        calls = res.visit_entries[k]
+        if not calls and car:
+            skip.append(k)
+            continue
+        for i in car:
+            if calls.count(i) != 1:
+                problems.append(f"{k}.{fields[i][0]}: visited {calls.count(i)} times")
+        for c in calls:
+            if not 0 <= c < len(fields):
+                problems.append(f"{k}: call on field {c}")
+        for i, (fn, ft) in enumerate(fields):
+            tg = child_target(ft)
+            if tg:
+                todo.extend(u for u in kinds_under(sc, tg) if u in res.carry and u not in seen)
+    res.need_partial = seen
+    skip = [k for k in sc.kinds if k in skip]
+    res.visit_skip = skip
+    res.visit_problems = problems
+    return res
+
+
+def shape_lean(sc, t):
+    tag, x = t
+    if tag == "leaf":
+        return ".leaf"
+    if tag == "node":
+        if x in sc.sum_id:
+            return f".sum {sc.sum_id[x]}"
+        return f".kind {sc.kind_id[x]}"
+    if tag == "box":
+        return shape_lean(sc, x)
+    inner = shape_lean(sc, x)
+    return f".{'list' if tag == 'vec' else 'opt'} ({inner})"
+
+
+def _lst(xs):
+    return "[" + ", ".join(str(x) for x in xs) + "]"
+
+
+def _strs(xs):
+    return "[" + ", ".join('"' + x + '"' for x in xs) + "]"
+
+
+HEADER = "/- GENERATED by tools/c12_translate.py from {src} — do not edit. -/\n"
+
+
+def lean_files(res):
+    sc = res.schema
+    out = {}
+    lines = [HEADER.format(src="ast/src/gen/generic.rs"), "import PV.C12.Model", "namespace PV.C12.Gen", "open PV.C12", ""]
+    lines.append("def schema : Schema := {")
+    lines.append("  kinds := [")
+    rows = []
+    for k in sc.kinds:
+        par = sc.parent.get(k)
+        ps = f"some {sc.sum_id[par]}" if par else "none"
+        shapes = ", ".join(shape_lean(sc, ft) for _, ft in sc.structs[k]["fields"])
+        rows.append(f"    ⟨{ps}, {sc.structs[k]['range']}, [{shapes}]⟩  /- {sc.kind_id[k]} {k} -/")
+    lines.append(",\n".join(rows))
+    lines.append("  ],")
+    lines.append(f"  interesting := {_lst(sc.interesting)} }}")
+    lines.append("")
+    lines.append(f"def kindNames : List String := {_strs(sc.kinds)}")
+    lines.append(f"def variantNames : List String := {_strs([sc.variant_name.get(k, '') for k in sc.kinds])}")
+    lines.append(f"def sumNames : List String := {_strs(sc.sums)}")
+    lines.append("def fieldNames : List (List String) := [")
+    lines.append(",\n".join("  " + _strs([f for f, _ in sc.structs[k]["fields"]]) for k in sc.kinds))
+    lines.append("]")
+    lines.append(f"def optCfg : OptCfg := ⟨{sc.kind_id['ExprTuple']}, {sc.kind_id['ExprConstant']}⟩")
+    lines.append("/-- kinds whose subtrees can contain a stmt/expr/pattern/excepthandler node (certificate, checked by `carryClosed`) -/")
+    lines.append(f"def carry : List Nat := {_lst(sc.kind_id[k] for k in sc.kinds if k in res.carry)}")
+    lines.append("/-- carrying kinds reachable from a stmt/expr/pattern/excepthandler node (certificate, checked by `neededClosed`) -/")
+    lines.append(f"def need : List Nat := {_lst(sc.kind_id[k] for k in sc.kinds if k in res.need)}")
+    lines.append("end PV.C12.Gen")
+    out["C12Schema.lean"] = "\n".join(lines) + "\n"
+
+    lines = [HEADER.format(src="ast/src/gen/fold.rs"), "import PV.C12.Model", "namespace PV.C12.Gen", "open PV.C12", ""]
+    lines.append("def foldProg : FoldProg := ⟨[")
+    rows = []
+    for k in sc.kinds:
+        e = res.fold_entries[k]
+        calls = "[" + ", ".join(f"({d}, {s})" for d, s in e["calls"]) + "]"
+        rows.append(f"  ⟨{_lst(e['destruct'])}, {e['will']}, {calls}, {e['map']}, {_lst(e['rebuild'])}⟩  /- {sc.kind_id[k]} {k} -/")
+    lines.append(",\n".join(rows))
+    lines.append("]⟩")
+    lines.append("end PV.C12.Gen")
+    out["C12FoldProg.lean"] = "\n".join(lines) + "\n"
+
+    lines = [HEADER.format(src="ast/src/gen/visitor.rs"), "import PV.C12.Model", "namespace PV.C12.Gen", "open PV.C12", ""]
+    lines.append("def visitProg : VisitProg := {")
+    lines.append("  entries := [")
+    rows = []
+    for k in sc.kinds:
+        if k in res.visit_entries:
+            rows.append(f"    some {_lst(res.visit_entries[k])}  /- {sc.kind_id[k]} {k} -/")
+        else:
+            rows.append(f"    none  /- {sc.kind_id[k]} {k} -/")
+    lines.append(",\n".join(rows))
+    lines.append("  ],")
+    lines.append(f"  sums := {_lst(sc.sum_id[s] for s in sc.sums if s in res.visit_dispatch)},")
+    disp = []
+    for s in sc.sums:
+        for a, b in res.visit_dispatch.get(s, []):
+            disp.append(f"({sc.kind_id[a]}, {sc.kind_id[b]})")
+    lines.append("  dispatch := [" + ", ".join(disp) + "] }")
+    lines.append("")
+    lines.append("/-- needed kinds whose `generic_visit_*` body is empty although they have carrying fields -/")
+    lines.append(f"def visitSkip : List Nat := {_lst(sc.kind_id[k] for k in res.visit_skip)}")
+    lines.append("/-- carrying kinds reachable from a stmt/expr/pattern/excepthandler node without passing through a `visitSkip` kind -/")
+    lines.append(f"def needPartial : List Nat := {_lst(sc.kind_id[k] for k in sc.kinds if k in res.need_partial)}")
+    full = not res.visit_skip and not res.visit_problems
+    lines.append("/-- truth value of `VisitWF visitProg schema carry need` as computed by the translator; re-proved in `PV/C12/Thm.lean` by `decide` -/")
+    lines.append(f"def visitWFExpected : Bool := {'true' if full else 'false'}")
+    lines.append("end PV.C12.Gen")
+    out["C12VisitProg.lean"] = "\n".join(lines) + "\n"
+    return out
+
+
+def emit(res, lean_dir=None):
+    lean_dir = lean_dir or core.LEAN
+    d = os.path.join(lean_dir, "PV", "Gen")
+    os.makedirs(d, exist_ok=True)
+    changed = []
+    for name, content in lean_files(res).items():
+        p = os.path.join(d, name)
+        old = None
+        if os.path.exists(p):
+            with open(p, encoding="utf-8") as f:
+                old = f.read()
+        if old != content:
+            with open(p, "w", encoding="utf-8") as f:
+                f.write(content)
+            changed.append(name)
+    return changed
+
+
+if __name__ == "__main__":
+    r = translate()
+    print("kinds", len(r.schema.kinds), "orphans", r.schema.orphans)
+    print("visit skip", r.visit_skip, "problems", r.visit_problems)
+    print("changed", emit(r))
